@@ -453,6 +453,9 @@ fn c02_large_scenario(ctx: &Ctx, case: u64, rep: &mut Report) {
 }
 
 pub fn run_c02(ctx: &Ctx, rep: &mut Report) {
+    if crate::props::huge::maybe_run(ctx, rep, "beyond 4 GiB", 10) {
+        return;
+    }
     let mut i = 0;
     while let Some(case) = ctx.next_case(&mut i) {
         if case == 0 && ctx.shard % 4 == 0 {
